@@ -80,4 +80,19 @@ extern int32_t g_i;
 #else
 #define TLWEKG_MORE
 #endif
+/* tGswSymDecrypt: l phase / multiply-accumulate pairs; a debug loop of assertions; N roundings */
+extern int32_t n_phase, n_mul, n_ms, bad, g_wout; extern Torus32 g_seen_phase;
+#define LOOP_tGswSymDecrypt_0(i) \
+    __CPROVER_assigns(i, n_phase, n_mul, bad) \
+    __CPROVER_loop_invariant(0 <= i && i <= l && bad == 0 && n_phase == i && n_mul == i) \
+    __CPROVER_decreases(l - i)
+#define LOOP_tGswSymDecrypt_1(j) \
+    __CPROVER_assigns(j) \
+    __CPROVER_loop_invariant(1 <= j && (j <= N || j == 1)) \
+    __CPROVER_decreases(N - j)
+#define LOOP_tGswSymDecrypt_2(i) \
+    __CPROVER_assigns(i, __CPROVER_object_whole(result->coefs), n_ms, bad, g_seen_phase) \
+    __CPROVER_loop_invariant(0 <= i && i <= N && bad == 0 && n_ms == i) \
+    __CPROVER_loop_invariant((i) > g_k ==> (result->coefs[g_k] == g_wout && g_seen_phase == testvec->coefsT[g_k])) \
+    __CPROVER_decreases(N - i)
 #endif
